@@ -280,7 +280,10 @@ def single_field(ctx, facts, entry, partfn, unit, units):
     I.contracts['util::date::convert::year_doy_to_days'] = rec_call('doy', top_of('doy days'))
     I.contracts['time::Time::from_nanos'] = rec_call('tfn', top_of('time'))
     I.contracts['util::offset::try_remove_offset_from_dn'] = rec_call('rm', top_of('utc'))
-    I.contracts['offset::Offset::from_seconds'] = rec_call('ofs', top_of('offset'))
+    def fixed_offset(I_, st, dty):
+        # Offset::from_seconds returns Fixed(seconds) (C15): the summary is a Fixed offset with an unknown in-range payload
+        return ('e', OFFSET, {0: (I_.top(st, I32, 'zone seconds', lo=-86_399, hi=86_399),)})
+    I.contracts['offset::Offset::from_seconds'] = rec_call('ofs', fixed_offset)
     I.contracts['<time::Time as shared::OffsetUtilities>::as_offset'] = rec_call('aso', top_of('as_offset'))
     I.return_partition[entry] = lambda I_, st, v: id(st)
     N.run(entry, variants=('fixed',))
@@ -337,7 +340,15 @@ def single_field(ctx, facts, entry, partfn, unit, units):
                         if not aso or val not in [a_[2] for a_ in aso]:
                             pr.append('the Time returned is not from_nanos(..).as_offset(zone)')
                     else:
-                        rm = [r for r in rec['rm'] if any(r[1][1] == tv[2][0] for tv in tvs)]
+                        # the local reading is shifted by exactly the resolved zone: third argument == zone.resolve()
+                        def resolved(r):
+                            for o in ofs:
+                                z = o[2]
+                                if z[0] == 'e' and 0 in z[2] and r[1][2][0] == 'i' and z[2][0][0][0] == 'i' and \
+                                        D.aff_equiv(D.aff_of(r[1][2][1]), D.aff_of(z[2][0][0][1]), st=r[0]):
+                                    return True
+                            return False
+                        rm = [r for r in rec['rm'] if any(r[1][1] == tv[2][0] for tv in tvs) and resolved(r)]
                         if not rm or val[0] != 's' or val[2][2] not in [o[2] for o in ofs] or (val[2][0], val[2][1]) not in [tuple(r[2][1]) for r in rm]:
                             pr.append('the DateTime returned is not the local reading shifted to UTC by the zone, carrying the zone as its offset')
                 elif ty == 'Time':
@@ -354,7 +365,7 @@ def single_field(ctx, facts, entry, partfn, unit, units):
     if os.environ.get('C12DBG'):
         for k_, lst in rec.items():
             for st_, a_, r_ in lst:
-                print('REC', k_, [I.describe(st_, x) for x in a_], [x[1] if x[0] == 'i' else None for x in a_], 'v=', v)
+                print('REC', k_, [I.describe(st_, x) for x in a_], [x[1] if x[0] == 'i' else None for x in a_], 'v=', v, 'ret', r_)
     for args, st0, outs in N.results.get(entry, []):
         for st, rv in outs:
             if rv[0] != 'e' or 0 not in rv[2] or 1 in rv[2] or v is None:
@@ -365,9 +376,7 @@ def single_field(ctx, facts, entry, partfn, unit, units):
             if not p1:
                 with_v += 1
                 continue
-            p0 = judge_path(st, val, False)      # a path on which the run was a quoted literal: every field absent
-            if p0:
-                problems.extend(p1)
+            problems.extend(p1)
     if nok and not with_v and not problems:
         problems.append('no Ok path carries the parsed value into the result')
     if nok == 0:
